@@ -2,22 +2,23 @@
 from props._common import *  # noqa
 
 ID = 'C02'
-LEVEL = 'other'
-MANIFEST_LEVEL = 'other'
-FUNCTIONS = HUB
+LEVEL = 'proof'
+FUNCTIONS = HUB + [M + 'match_nth', M + 'match_nth_tag_type', 'lemma.C02_anb_closed_sound', 'lemma.C02_anb_closed_complete']
 
 def _bt_nth_parse(ctx):
     from pyvc import bounded_text
     return bounded_text.nth_parse(ctx)
 
 BOUNDED = [hub_bounded('C02-nth-hub', ['basic', 'nows', 'multiroot', 'identical', 'small', 'api', 'plain', 'svghtml'], ['nth']), _bt_nth_parse]
-TRUSTED = [A_PY, A_BS4, A_SMT, 'match_nth itself is not yet under a discharged contract: its meaning sem_nth (spec/css_ref.py: position among qualifying element siblings, '
-           'closed form of An+B) is checked against the real function only on the bounded corpus']
+TRUSTED = [A_PY, A_BS4, A_IR, A_SMT, 'get_children (reversed / Tag-only child sequence) and create_fake_parent are under assumed contracts (bounded)',
+           'An+B micro-syntax to integers (parse_pseudo_nth) is bounded, not proved']
 ASSUMPTIONS = TRUSTED
-EXPLANATION = ('Proved: the hub calls match_nth for every compound and requires its result (match_selectors == sem_list, which conjoins sem_nth). '
-               'Bounded: match_nth against the An+B reference on sibling sequences with and without interleaved text/comment nodes, detached elements, of-S and of-type; '
-               'every accepted spelling of An+B against its integer reading.')
+EXPLANATION = ('Proved for all integers a, b, all sibling sequences and all of-S lists: match_nth == sem_nth, where the position is the number of qualifying '
+               'element siblings up to the element (from the end for -last-, same (name, namespace) for -of-type) and An+B is decided in closed form; two lemmas tie the '
+               'closed form to "exists n >= 0 with a*n+b == position" (nonlinear arithmetic, z3). Bounded: every accepted spelling of An+B against its integer reading.')
 LEVEL_TEXT = EXPLANATION
-TECHNIQUE = 'contract on the hub proved by VC generation + z3; match_nth and the An+B micro-syntax by bounded evaluation of the same contract (labelled bounded)'
+TECHNIQUE = 'contract-based deductive verification (VCs from the real AST, z3); An+B micro-syntax by bounded evaluation'
 TIMEOUT_MS = {'quick': 20000, 'thorough': 120000}
-MUSTFAIL = False
+MUSTFAIL_PER_FN = {'quick': 1, 'thorough': 6}
+
+TIMEOUT_MS = {'quick': 60000, 'thorough': 240000}
